@@ -58,6 +58,63 @@ func genPlan(rng *rand.Rand, sc *Scenario, transport string) []Step {
 	return plan
 }
 
+// genChans picks the interleaved ids a hand-written peer asks for in its SETUPs (-1: none): explicit,
+// odd-based, high, or left to the server, never a pair the server would refuse (a 400 ends the session).
+func genChans(rng *rand.Rand, n int) []int {
+	inUse := func(assigned []int, c int) bool {
+		for _, t := range assigned {
+			if t+1 == c || t == c || t == c+1 {
+				return true
+			}
+		}
+		return false
+	}
+	cands := []int{1, 3, 5, 7, 2, 4, 6, 9, 11, 21, 100, 101, 254}
+	var assigned, out []int
+	for k := 0; k < n; k++ {
+		c := -1
+		if rng.IntN(5) < 3 {
+			c = cands[rng.IntN(len(cands))]
+			if k > 0 && rng.IntN(3) == 0 && assigned[k-1] >= 2 {
+				c = assigned[k-1] - 2 // the pair just below the previous one
+			}
+			if inUse(assigned, c) {
+				c = -1
+			}
+		}
+		out = append(out, c)
+		if c < 0 {
+			for i := 0; ; i += 2 {
+				if !inUse(assigned, i) {
+					c = i
+					break
+				}
+			}
+		}
+		assigned = append(assigned, c)
+	}
+	return out
+}
+
+// rawPlan: hand-written readers play once and may leave (no PAUSE).
+func rawPlan(plan []Step) []Step {
+	var out []Step
+	played := false
+	for _, st := range plan {
+		switch st.Op {
+		case "pause":
+			continue
+		case "play":
+			if played {
+				continue
+			}
+			played = true
+		}
+		out = append(out, st)
+	}
+	return out
+}
+
 func genScenario(rng *rand.Rand, n int, allTransports bool) *Scenario {
 	sc := &Scenario{Seed: rng.Uint64(), N: n, Cap: capChoices[rng.IntN(len(capChoices))]}
 	if rng.IntN(2) == 0 {
@@ -125,6 +182,11 @@ func genScenario(rng *rand.Rand, n int, allTransports bool) *Scenario {
 			sp.StallEach = 20 + rng.IntN(60)
 		}
 		sp.Plan = genPlan(rng, sc, sp.Transport)
+		if sp.Transport == "tcp" && !sc.TLS && rng.IntN(4) == 0 {
+			sp.Raw = true
+			sp.Chans = genChans(rng, len(sp.Medias))
+			sp.Plan = rawPlan(sp.Plan)
+		}
 		sc.Readers = append(sc.Readers, sp)
 	}
 	if rng.IntN(5) == 0 {
@@ -133,6 +195,17 @@ func genScenario(rng *rand.Rand, n int, allTransports bool) *Scenario {
 		sc.PubCap = []int{8, 16, 64, 256}[rng.IntN(4)]
 		if sc.Relay == "udp" {
 			anyUDP = true
+			if rng.IntN(3) != 0 {
+				sc.PubLoss = rng.IntN(40)
+				if !sc.TLS {
+					sc.PubDup = rng.IntN(40)
+					sc.PubReorder = rng.IntN(80)
+				}
+			}
+		} else if !sc.TLS && rng.IntN(2) == 0 {
+			sc.PubRaw = true
+			sc.PubOrder = rng.Perm(nm)
+			sc.PubChans = genChans(rng, nm)
 		}
 	}
 	if !anyUDP && !sc.TLS && rng.IntN(2) == 0 {
@@ -211,6 +284,14 @@ func runScenario(c *corr.Ctx, sc *Scenario, name string, st *runStats) {
 		}
 		h.reindex()
 		c.Dist("relay:" + sc.Relay)
+		if h.rawPub != nil {
+			c.Dist("relay:raw-publisher")
+		}
+		for _, w := range h.pubConns {
+			c.DistN("pub-udp-injected-loss", w.faults.nLoss)
+			c.DistN("pub-udp-injected-dup", w.faults.nDup)
+			c.DistN("pub-udp-injected-reorder", w.faults.nHeld)
+		}
 		c.DistN("relay-received", len(h.relayRecs))
 		for _, o := range h.pubOut {
 			if o == 'f' {
@@ -269,6 +350,9 @@ func runScenario(c *corr.Ctx, sc *Scenario, name string, st *runStats) {
 	c.DistN("packets-written", len(h.writes))
 	for _, rd := range h.readers {
 		c.Dist("reader:" + rd.spec.Transport)
+		if rd.spec.Raw {
+			c.Dist("reader:raw-channels")
+		}
 		c.DistN("callbacks", len(rd.recs))
 		for _, ob := range rd.ctl {
 			c.Dist("ctl:" + ob.op)
@@ -334,6 +418,40 @@ func srtpMissedWrap(seed uint64, arb bool) *Scenario {
 	return sc
 }
 
+// channelScenarios: explicit / odd / high / omitted interleaved ids in both directions, several medias,
+// any SETUP order (hand-written publisher and readers).
+func channelScenarios(seed uint64) []*Scenario {
+	plan := []Step{{At: 0, Op: "play"}}
+	mk := func(order, pubChans []int, readers ...ReaderSpec) *Scenario {
+		return &Scenario{Seed: seed, Mode: "exact", Cap: 256, Medias: [][]int{{96}, {97, 98}, {96}}, N: 400, Pace: 2,
+			Relay: "tcp", PubRaw: true, PubOrder: order, PubChans: pubChans, Readers: readers}
+	}
+	return []*Scenario{
+		// media 1 on the odd pair 1-2, then media 0 and 2 without a request: 0 and 2 are taken
+		mk([]int{1, 0, 2}, []int{1, -1, -1},
+			ReaderSpec{Transport: "tcp", Raw: true, Medias: []int{1, 0, 2}, Chans: []int{1, -1, -1}, Plan: plan},
+			ReaderSpec{Transport: "tcp", Medias: []int{0, 1, 2}, Plan: plan}),
+		// the pair just below, high pairs, the last pair
+		mk([]int{2, 1, 0}, []int{5, 3, -1},
+			ReaderSpec{Transport: "tcp", Raw: true, Medias: []int{2, 0, 1}, Chans: []int{254, 100, -1}, Plan: plan},
+			ReaderSpec{Transport: "tcp", Raw: true, Medias: []int{0, 2}, Chans: []int{3, 1}, Plan: plan}),
+		mk([]int{0, 2, 1}, []int{-1, 3, -1},
+			ReaderSpec{Transport: "tcp", Raw: true, Medias: []int{1, 2, 0}, Chans: []int{-1, 3, 5}, Plan: plan}),
+	}
+}
+
+// reorderScenario: heavy reordering / duplication on both UDP hops (publisher → server, server →
+// reader): every packet has its own payload, so a parked packet whose buffer is reused shows.
+func reorderScenario(seed uint64) *Scenario {
+	plan := []Step{{At: 0, Op: "play"}}
+	return &Scenario{Seed: seed, Mode: "exact", Cap: 256, Medias: [][]int{{96}, {97, 98}}, N: 800, Pace: 2,
+		Relay: "udp", PubCap: 256, PubReorder: 150, PubDup: 30, PubLoss: 10,
+		Readers: []ReaderSpec{
+			{Transport: "udp", Medias: []int{0, 1}, Plan: plan, Reorder: 150, Dup: 30, Loss: 10},
+			{Transport: "tcp", Medias: []int{1, 0}, Plan: plan},
+		}}
+}
+
 func Run(c *corr.Ctx) {
 	c.Rule("real gortsplib Server + ServerStream (1..3 medias x 1..2 formats) and 1..4 real reading Clients over UDP (with injected loss / duplication / reordering), TCP interleaved, HTTP and WebSocket tunnels, plain and TLS+SRTP; the writer writes N packets (payload 1..max, arbitrary timestamps / markers, consecutive sequence numbers from a random start incl. wrap, arbitrary ones on reliable transports); readers join, PAUSE/PLAY and leave at seeded moments (exact: between writes; racy: concurrently), connections are stalled to fill the write queue; every callback is recorded; the property is evaluated on the recorded history, and the compiled Lean model is run on the logged history (writes with their per-reader push outcome, control operations where their effect was observed, UDP datagram arrivals) and must reproduce every reader's callback list")
 	st := &runStats{}
@@ -384,6 +502,10 @@ func Run(c *corr.Ctx) {
 		runScenario(c, sc, fmt.Sprintf("sweep/%s/tls=%v", sw.tr, sw.tls), st)
 	}
 
+	for i, sc := range channelScenarios(c.Rng.Uint64()) {
+		runScenario(c, sc, fmt.Sprintf("channels/%d", i), st)
+	}
+	runScenario(c, reorderScenario(c.Rng.Uint64()), "udp-reorder-both-hops", st)
 	runScenario(c, srtpFollowedWrap(c.Rng.Uint64()), "srtp-wrap-followed", st)
 	runScenario(c, srtpMissedWrap(c.Rng.Uint64(), false), "srtp-wrap-missed", st)
 	runScenario(c, srtpMissedWrap(c.Rng.Uint64(), true), "srtp-arbseq-late-join", st)
